@@ -37,9 +37,13 @@ def gcpl_cases(E, ctx):
     def ens(r):
         rt = as_int_term(r)
         E.ghost.setdefault("gcpl", []).append((ta, tb, rt))
+        from contracts import seqlemmas as SL
         return [("range", mk_bool(z3.And(rt >= 0, rt <= mn))),
                 ("common", mk_bool(z3.Extract(ta, 0, rt) == z3.Extract(tb, 0, rt))),
-                ("maximal", mk_bool(z3.Implies(rt < mn, ta[rt] != tb[rt])))]
+                ("maximal", mk_bool(z3.Implies(rt < mn, ta[rt] != tb[rt]))),
+                # consequence (lemma seq/lcp_prefix): what the length says about prefix relations
+                ("prefix-relations", mk_bool(z3.simplify(z3.And((rt == z3.Length(ta)) == z3.PrefixOf(ta, tb),
+                                                                 (rt == z3.Length(tb)) == z3.PrefixOf(tb, ta)))))]
     return [Case("length", ensures=ens, rtype="int")]
 
 
